@@ -39,6 +39,35 @@ def make_graph_case(rng, max_e, max_loops, tries=60, catalogue_bias=0.5, names=N
     return None
 
 
+def make_special_case(rng, kind):
+    """accepted graphs outside the main family: 'vacuum' (no external vertex, all edges massive) and 'disconnected'
+    (two components: one carrying the externals, the other a massive vacuum bubble)"""
+    for _ in range(60):
+        D = rng.randint(1, 6)
+        if kind == "vacuum":
+            name = rng.choice(["bubble", "sunrise", "tadpole_pair", "triangle_tadpole"])
+            edges = list(gen.CATALOGUE[name]); massive = [True] * len(edges); ext = []
+        else:
+            name = rng.choice(["two_bubbles", "triangle_x_bubble", "bubble_x_tadpole"])
+            edges = {"two_bubbles": [(0, 1), (0, 1), (2, 3), (2, 3)], "triangle_x_bubble": [(0, 1), (1, 2), (2, 0), (3, 4), (3, 4)],
+                     "bubble_x_tadpole": [(0, 1), (0, 1), (2, 2)]}[name]
+            n1 = {"two_bubbles": 2, "triangle_x_bubble": 3, "bubble_x_tadpole": 2}[name]
+            massive = [rng.random() < 0.5 for _ in range(n1)] + [True] * (len(edges) - n1)
+            ext = sorted(set(v for e in edges[:n1] for v in e))
+        edges, mp, _ = gen.relabel(rng, edges)
+        ext = [mp[v] for v in ext]
+        n = len(edges)
+        L = oracle.subset_info(edges, massive, ext, (1 << n) - 1)[0]
+        weights = [gen.weight_choice(rng, rng.choice(["twelfths", "random"])) for _ in range(n)]
+        tot = sum(weights); target = L * D / 2.0 + rng.uniform(0.2, 1.5)
+        weights = [w * target / tot for w in weights]
+        dod, Lf, table = oracle.table_oracle(edges, weights, massive, ext, D)
+        if not oracle.divergent_subsets(table) and dod > Fraction(1, 20):
+            return dict(edges=edges, weights=weights, massive=massive, ext=ext, D=D, accepted=True, table=table, dod=dod, loops=Lf,
+                        name=kind + ":" + name)
+    return None
+
+
 def make_kinematics(rng, case):
     """external momenta (exactly conserved, dyadic), masses, a spanning tree with its fundamental signature and the
     tree routing of the external momenta"""
@@ -126,12 +155,16 @@ def build_tables(cases):
 
 
 def generate(ctx, n_graphs, pts, max_e=6, max_loops=3, kinds=("uniform", "uniform", "corner", "edge1"), variant="random",
-             routings_per_graph=1, names=None, mass_mode=None):
-    """returns list of dict(case, routing, table, xs, req, kind)"""
+             routings_per_graph=1, names=None, mass_mode=None, special=()):
+    """returns list of dict(case, routing, table, xs, req, kind); `special` = kinds of make_special_case to append"""
     rng = ctx.rng
     cases = []
     while len(cases) < n_graphs:
         c = make_graph_case(rng, max_e, max_loops, names=names, mass_mode=mass_mode)
+        if c is not None:
+            cases.append(c)
+    for kind in special:
+        c = make_special_case(rng, kind)
         if c is not None:
             cases.append(c)
     built = build_tables(cases)
